@@ -1968,6 +1968,31 @@ impl<'a, C: Crypto> TransportRunner<'a, C> {
         }
     }
 
+    /// Verification hook (C03): run the real receive-side decoding (`decode_packet`: plain header,
+    /// session lookup, decryption, `post_recv`) on one datagram as received from `peer`.
+    ///
+    /// Calls `f` with the result, the decoded headers and the payload the exchange would see.
+    #[cfg(feature = "verif")]
+    pub fn verif_decode_datagram<R>(
+        &self,
+        peer: Address,
+        data: &[u8],
+        f: impl FnOnce(Result<bool, Error>, &PacketHdr, &[u8]) -> R,
+    ) -> Result<R, Error> {
+        let mut packet = Packet::<MAX_RX_BUF_SIZE>::new();
+        packet.peer = peer;
+        packet
+            .buf
+            .extend_from_slice(data)
+            .map_err(|_| ErrorCode::BufferTooSmall)?;
+        packet.payload_start = 0;
+
+        let result = self.decode_packet(&mut packet);
+
+        let start = core::cmp::min(packet.payload_start, packet.buf.len());
+        Ok(f(result, &packet.header, &packet.buf[start..]))
+    }
+
     fn decode_packet<const N: usize>(&self, packet: &mut Packet<N>) -> Result<bool, Error> {
         self.matter.with_state(|state| {
             packet.header.reset();
